@@ -144,8 +144,10 @@ def run(ctx):
             scripts += gen(ctx, "g2.cfg", algs='= {"hmac-sha256"}', fudges="{300}", skews="GSkewsBig", errors="{0}",
                            kinds=tset(["query", "stream"]), lens="{2}")
             # the same Message object rendered again (Resign): genuine for every algorithm; with one fault for two
-            scripts += gen(ctx, "gr1.cfg", fudges="{2}", errors="{0}", total=0, lens="{2}", maxresign=2, mods=ALL_MODS, nlens="{2, 3}")
-            scripts += gen(ctx, "gr2.cfg", algs='= {"hmac-sha256", "hmac-sha384-192"}', fudges="{2}", errors="{0}",
+            scripts += gen(ctx, "gr1.cfg", fudges="{2}", errors="{0}", total=0, lens="{2}", maxresign=1, mods=ALL_MODS, nlens="{2}")
+            scripts += gen(ctx, "gr1c.cfg", algs='= {"hmac-sha256"}', fudges="{2}", errors="{0}", total=0, kinds=tset(["query", "response"]),
+                           maxresign=2, mods=ALL_MODS, nlens="{3}")
+            scripts += gen(ctx, "gr2.cfg", algs='= {"hmac-sha384-192"}', fudges="{2}", errors="{0}",
                            kinds=tset(["query", "response"]), maxresign=1, mods=ALL_MODS, nlens="{2}")
         else:
             scripts += gen(ctx, "g1.cfg", maxenv=4, lens="{2, 3, 4}")
@@ -168,8 +170,8 @@ def run(ctx):
             genuine = not faults_of(s)
             resign = any(e["op"] == "resign" for e in s)
             n = (1 if (resign and quick) else per_genuine) if genuine else per_faulty
-            # bit flips on every genuine script; on re-rendering scripts only for one algorithm in quick (declared cut)
-            flip = genuine and (not resign or not quick or s[0]["alg"] == "hmac-sha256")
+            # bit flips on every genuine script; on re-rendering scripts, in quick, only for hmac-sha256 with <= 2 renderings (declared cut)
+            flip = genuine and (not resign or not quick or (s[0]["alg"] == "hmac-sha256" and s[0]["len"] <= 2))
             for j in range(n):
                 var = ALL_VARIANTS[(i * 37 + j * 53 + ctx.seed * 11) % nv]
                 if resign:  # re-rendering exists only for Message objects
